@@ -14,6 +14,20 @@ from typing import Any
 WORLD: "MdnsWorld | None" = None
 
 
+def _zc_ip(text: str) -> Any:
+    """An address object of the classes python-zeroconf itself hands out (its own subclasses of IPv4Address / IPv6Address, not the stdlib
+    classes), falling back to the stdlib ones when that package layout is not present."""
+    try:
+        from zeroconf._utils.ipaddress import cached_ip_addresses  # noqa: PLC0415
+
+        a = cached_ip_addresses(text)
+        if a is not None:
+            return a
+    except Exception:  # noqa: BLE001
+        pass
+    return ipaddress.ip_address(text)
+
+
 class MdnsWorld:
     """Scenario-side state of the fake mDNS network."""
 
@@ -199,15 +213,15 @@ class FakeServiceInfo:
             # python-zeroconf reports a request complete only once SRV/TXT have been seen too; with `server=` given, the A/AAAA records
             # it did receive are loaded into the ServiceInfo although async_request() returns False
             rec["outcome"] = "incomplete-with-addresses"
-            self._v4 = [ipaddress.ip_address(x) for x in ans.get("v4", [])]
-            self._v6 = [ipaddress.ip_address(x) for x in ans.get("v6", [])]
+            self._v4 = [_zc_ip(x) for x in ans.get("v4", [])]
+            self._v6 = [_zc_ip(x) for x in ans.get("v6", [])]
             return False
         if isinstance(ans, BaseException):
             rec["outcome"] = "raise"
             raise ans
         rec["outcome"] = "found"
-        self._v4 = [ipaddress.ip_address(x) for x in ans.get("v4", [])]
-        self._v6 = [ipaddress.ip_address(x) for x in ans.get("v6", [])]
+        self._v4 = [_zc_ip(x) for x in ans.get("v4", [])]
+        self._v6 = [_zc_ip(x) for x in ans.get("v6", [])]
         return True
 
     def ip_addresses_by_version(self, version: Any) -> list[Any]:
